@@ -332,6 +332,29 @@ func asyncCheck(prop string, c asyncCfg, o *asyncObs, x *zzvrt.Exec) (string, []
 				add("C05", "stop-flush", fmt.Sprintf("after Stop returned appender %d has %d items, %d were accepted", ai, len(seen), int64(len(o.submitted))-o.counter))
 			}
 		}
+		// C06: which item an overflow drops. Discard never drops a buffered item, so every prefill
+		// item is delivered; DiscardOldest keeps the arriving item: while older prefill items are still
+		// buffered (large prefill, few submissions) no producer item can be the oldest, so every
+		// producer item is delivered.
+		if c.refLevel == "" && !c.layout {
+			switch c.policy {
+			case log.BufferFullPolicyDiscard:
+				for i := 0; i < c.prefill; i++ {
+					if id := fmt.Sprintf("W:p%d", i); seen[id] == 0 {
+						add("C06", "discard-dropped-buffered-item", fmt.Sprintf("Discard policy: buffered item %s was dropped (only arriving items may be)", id))
+						break
+					}
+				}
+			case log.BufferFullPolicyDiscardOldest:
+				if c.prefill >= 50 {
+					for id := range o.submitted {
+						if !strings.HasPrefix(id, "W:p") && seen[id] == 0 {
+							add("C06", "discardoldest-dropped-arriving-item", fmt.Sprintf("DiscardOldest policy: arriving item %s was dropped while older items were still buffered (delivered=%v)", id, tail12(delivered)))
+						}
+					}
+				}
+			}
+		}
 		// C06/C12: per-producer order
 		pos := map[string]int{}
 		for i, id := range delivered {
@@ -435,4 +458,11 @@ func init() {
 		}
 		reg("C12", asyncCfg{policy: pol, prefill: 98, gate: "tokens5", reuse: true, producers: []string{"WW", "WE"}}, "qt", 2, 3)
 	}
+}
+
+func tail12(s []string) []string {
+	if len(s) > 12 {
+		return s[len(s)-12:]
+	}
+	return s
 }
